@@ -46,6 +46,23 @@ Theorem C07_interleavings_distinct : forall (sched : list (nat * sop)) s, sane s
 Proof. exact no_duplicates_across_goroutines. Qed.
 Print Assumptions C07_interleavings_distinct.
 
+(* the 16-bit values themselves, "each successive 16-bit value exactly once": two Nexts fewer than
+   65536 issues apart never receive the same 16-bit value, and two Nexts exactly 65536 issues apart
+   receive the same value with rollover counts one apart - one lap hands out every value once *)
+Theorem C07_window_distinct : forall ops s, sane s -> roc s + count_next ops < 18446744073709551616 ->
+  forall i j vi ri vj rj, (i < j)%nat -> Z.of_nat j - Z.of_nat i < 65536 ->
+  nth_error (next_trace s ops) i = Some (vi, ri) -> nth_error (next_trace s ops) j = Some (vj, rj) ->
+  vi <> vj.
+Proof. exact window_distinct. Qed.
+Print Assumptions C07_window_distinct.
+
+Theorem C07_window_period : forall ops s, sane s -> roc s + count_next ops < 18446744073709551616 ->
+  forall i j vi ri vj rj, Z.of_nat j = Z.of_nat i + 65536 ->
+  nth_error (next_trace s ops) i = Some (vi, ri) -> nth_error (next_trace s ops) j = Some (vj, rj) ->
+  vj = vi /\ rj = ri + 1.
+Proof. exact window_period. Qed.
+Print Assumptions C07_window_period.
+
 (* start values: all 65536 fixed starts; the random start is below 2^15 *)
 Theorem C07_fixed_start : forall s0, 0 <= s0 < 65536 -> snd (seq_next (new_fixed s0)) = s0 /\ sane (new_fixed s0).
 Proof. intros. split; [apply fixed_first_value; assumption|apply new_fixed_sane]. Qed.
